@@ -703,6 +703,9 @@ func (g *Gen) evalCall(ctx *specCtx, x *ECall) Val {
 		case IfaceV:
 			// interface holding a pointer: its payload is the reference
 			return BoolV{"(>= " + v.Pay + " " + ctx.old.ac + ")"}
+		case RefV:
+			// map / channel reference
+			return BoolV{"(>= " + v.T + " " + ctx.old.ac + ")"}
 		}
 		g.unsupported("fresh() of non-reference")
 	case "min", "max":
